@@ -3,7 +3,7 @@ CONSTANTS
   Cases <- AllCases
   Expand <- McExpand
   Slice = "halfopen"
-  MaxN = 4
+  MaxN = 3
   MaxB = 4
   MaxF = 3
   Wide = TRUE
